@@ -22,12 +22,14 @@ import threading
 from harness import framework, tlc, c16
 
 CABI = os.path.join(tlc.VERIF, "corpus", "cabi", "cabi.ndjson")
+# generous: on an otherwise idle 16-core machine the longest single run takes a few minutes; the machine may be shared
+TLC_TIMEOUT = int(os.environ.get("C16_TLC_TIMEOUT", "21600"))
 
 def _gen(cfg, kind, seed, simulate, depth, workers, wd, out):
     spool = os.path.join(wd, kind + ".spool")
     try:
         res = tlc.run("CStruct", cfg, simulate=simulate, depth=depth, seed=seed if simulate else None,
-                      spool=spool, tag="c16" + kind, timeout=3400, workers=workers)
+                      spool=spool, tag="c16" + kind, timeout=TLC_TIMEOUT, workers=workers)
         out[kind] = (cfg, res, spool)
     except Exception as ex:  # reported by the main thread
         out[kind] = ex
@@ -38,7 +40,7 @@ def _tref(rows, shard, wd, out):
     with open(path, "w") as f:
         f.write("".join(rows))
     try:
-        res = tlc.run("CStructTrace", "CStructTrace.cfg", tag="c16t%d" % shard, workers=2, timeout=3400,
+        res = tlc.run("CStructTrace", "CStructTrace.cfg", tag="c16t%d" % shard, workers=2, timeout=TLC_TIMEOUT,
                       env={"ROWS_FILE": path, "ROWS_LO": 1, "ROWS_HI": len(rows)})
         out["tref%d" % shard] = (res, len(rows))
     except Exception as ex:
@@ -107,15 +109,17 @@ def run(ctx):
         t.start()
         th.append(t)
     # --- M: self-test of the invariants, big exhaustive model ---------------------------------------
-    res = tlc.run("CStruct", "CStructMC_dev.cfg", expect_violation=True, tag="c16dev", workers=2)
-    if not res.violation or "LayoutOK" not in res.violation:
-        raise tlc.MachineryError("self-test: fault NoTailPad did not violate LayoutOK (invariant vacuous?)")
-    ctx.note("selftest_fault_detected_by_model", res.violation)
-    if not quick:
-        res = tlc.run("CStruct", "CStructMC_thorough.cfg", tag="c16mc", timeout=3400, workers=8)
-        ctx.add_tlc(res, "M:CStructMC_thorough.cfg")
-    for t in th:
-        t.join()
+    try:
+        res = tlc.run("CStruct", "CStructMC_dev.cfg", expect_violation=True, tag="c16dev", workers=2)
+        if not res.violation or "LayoutOK" not in res.violation:
+            raise tlc.MachineryError("self-test: fault NoTailPad did not violate LayoutOK (invariant vacuous?)")
+        ctx.note("selftest_fault_detected_by_model", res.violation)
+        if not quick:
+            res = tlc.run("CStruct", "CStructMC_thorough.cfg", tag="c16mc", timeout=TLC_TIMEOUT, workers=8)
+            ctx.add_tlc(res, "M:CStructMC_thorough.cfg")
+    finally:
+        for t in th:  # never leave a generator behind
+            t.join()
     for k, v in out.items():
         if isinstance(v, Exception):
             raise v if isinstance(v, tlc.MachineryError) else tlc.MachineryError("%s: %r" % (k, v))
